@@ -210,8 +210,8 @@ func (p *pathNode) addPathNodeFor(name string, pn *pathNode) {
 // value.
 func (p *pathNode) removeWithName(name string, fn func(ref *fidRef)) *pathNode {
 	p.childMu.Lock()
-	defer p.childMu.Unlock()
 
+	var held []*fidRef
 	if m, ok := p.childRefs[name]; ok {
 		for ref := range m {
 			delete(m, ref)
@@ -226,7 +226,7 @@ func (p *pathNode) removeWithName(name string, fn func(ref *fidRef)) *pathNode {
 			// been destroyed, then we can skip the callback.
 			if ref.TryIncRef() {
 				fn(ref)
-				ref.DecRef()
+				held = append(held, ref)
 			}
 		}
 	}
@@ -234,5 +234,14 @@ func (p *pathNode) removeWithName(name string, fn func(ref *fidRef)) *pathNode {
 	// Return the original path node, if it exists.
 	origPathNode := p.childNodes[name]
 	delete(p.childNodes, name)
+	p.childMu.Unlock()
+
+	// Drop the references taken above only now: if the last other
+	// reference was dropped concurrently (clunk, connection teardown),
+	// DecRef destroys the child, which takes its parent's childMu -- and
+	// after a rename within one directory that is p.childMu.
+	for _, ref := range held {
+		ref.DecRef()
+	}
 	return origPathNode
 }
